@@ -3,21 +3,19 @@ import gens, common
 from common import Failure
 from props._base import *  # noqa
 
-LEAN_MODULES = ['A5.Props.C18']
+LEAN_MODULES = ['A5.Props.C18', 'A5.Props.C02Centre']
 LEVEL = 'proof'
 EXPLANATION = ('Lean theorems, for EVERY level n, every index s < 4^n and all six orientations, in exact arithmetic (Q contains every double): s_to_anchor is total; '
                'ij_to_s(anchor(s) + delta) = s for ANY point delta strictly inside the anchor\'s unit triangle; distinct indices give distinct (offset, flips); every cell lies inside the '
                'segment triangle of side 2^n (all orientations); two cells never share an interior point; EVERY point of the closed segment triangle lies in the closed unit triangle of the cell whose index ij_to_s returns (`fill`: the 4^n cells exactly tile the triangle); '
                'the digit-shift transducer is a bijection of base-4 strings (both composites are the identity). Finite helpers (512-row shift step, patterns, kj table, flips) are tabulated from the '
-               'real functions on their whole domain each run and re-decided by the kernel. Named gaps tied by the check: pentagon centre strictly inside its unit triangle (16 shapes, margin checked '
-               'exhaustively on low levels), IEEE rounding in ij_to_s (the executable model runs on Lean Float = C double and is compared bit for bit).')
+               'real functions on their whole domain each run and re-decided by the kernel. The first former gap is now a theorem (`C02.centre_roundtrip`, exact arithmetic on the exact values of the double constants: the pentagon centroid of every cell, through face_to_ij, lies strictly inside its unit triangle with margin >= 1/10, levels <= 30). Named gap tied by the check: IEEE rounding in ij_to_s (the executable model runs on Lean Float = C double and is compared bit for bit).')
 RULE = ('ops: s_to_anchor exhaustively for levels <= 5 (7 thorough) x 6 orientations, digit-pattern-directed and random indices up to level 28, out-of-range indices; ij_to_s on lattice points with '
         'adversarial offsets, random points and real cell centres; search: index -> anchor -> pentagon centre -> ij -> index round trip, distinctness, fill of the segment triangle, centre margin, prefix locality')
-ASSUMPTIONS = ['the pentagon centre of each (flips, k) shape lies strictly inside its unit triangle (checked on every shape each run, margin reported)',
-               'floating-point rounding inside ij_to_s does not move a point across a lattice line (absolute error ~2^-24 at level 28 vs margin >= 0.1)',
+ASSUMPTIONS = ['floating-point rounding inside ij_to_s does not move a point across a lattice line (absolute error ~2^-24 at level 28 vs margin >= 0.1)',
                'sampled agreement of A5/Model/Hilbert.lean with a5/core/hilbert.py above the exhaustive levels']
 LEVEL_TEXT = ('machine-checked proof (Lean 4 kernel) of the exact-arithmetic core for every level and orientation; finite helpers tied exhaustively via regenerated tables, the rest by differential '
-              'correspondence (bit-exact floats); two numeric gaps named and measured')
+              'correspondence (bit-exact floats); one numeric gap (IEEE rounding) named and measured')
 TECHNIQUE = 'Lean 4 proof (transducer inverse by 256-case decide + induction; geometric decode over Q by induction) + exhaustive generated tables + differential correspondence'
 DESIGN_REF = 'DESIGN.md §3 C18'
 
